@@ -19,6 +19,7 @@ import (
 	"reflect"
 	"strconv"
 	"strings"
+	"sync"
 	"sync/atomic"
 	"time"
 	"unsafe"
@@ -48,6 +49,8 @@ type PersistOptions struct {
 	replicationMode atomic.Value
 	labelProperty   atomic.Value
 	clusterVersion  unsafe.Pointer
+	// persistMu makes "take the snapshot of all sections, write it" one step, see Persist.
+	persistMu sync.Mutex
 }
 
 // NewPersistOptions creates a new PersistOptions instance.
@@ -559,7 +562,11 @@ func (o *PersistOptions) DeleteLabelProperty(typ, labelKey, labelValue string) {
 }
 
 // Persist saves the configuration to the storage.
+// Concurrent calls are serialized: otherwise a caller could write a snapshot taken before
+// another caller's update was set, after that caller's write, and silently undo it in the storage.
 func (o *PersistOptions) Persist(storage *core.Storage) error {
+	o.persistMu.Lock()
+	defer o.persistMu.Unlock()
 	cfg := &Config{
 		Schedule:        *o.GetScheduleConfig(),
 		Replication:     *o.GetReplicationConfig(),
